@@ -139,6 +139,20 @@ def explore_c01(rng, tier, res, deep=False):
     for prefix in ("$.a", "$['a']", "$.b.c", "$.b.d", "$.b.e", "$.b.f", "$.s[0]", "$.s[3]", "$.s[-1]", "$.n", "$.l[0]", "$.l[1][0]", "$.l[2].a", "$.s[*]", "$..a", "$..c", "$.s[9]", "$[0]"):
         for sel in ("[0]", "[-1]", "[2]", "[1:]", "[:]", "[::-1]", "[*]", ".*", "['0']", ".length", ".a", "[0, 1]", "[0][0]", "..[0]", "..*", "[-3]", "[0:1]", "['a', 0]"):
             cases.append((prefix + sel, sdoc))
+    # several index selectors in one segment, every combination of small indices of either sign (runs that ascend,
+    # descend, repeat, cross zero), on arrays shorter and longer than the run: each selector is applied on its own
+    small = [-3, -2, -1, 0, 1, 2]
+    arrs = [["z"], ["a", "b"], ["a", "b", "c"], ["a", "b", "c", "d", "e"]]
+    for i, j, k in itertools.product(small, repeat=3):
+        arr = arrs[(i + 2 * j + 3 * k) % len(arrs)]
+        cases.append((f"$[{i},{j},{k}]", arr))
+    for run in ([-2, -1, 0, 1], [-1, 0, 1, 2, 3], [-3, -2, -1, 0], [-1, 0, -1, 0, 1], [2, 1, 0, -1], [0, 1, 2, 3, 4], [-4, -3, -2, -1]):
+        body = ",".join(str(x) for x in run)
+        for arr in arrs:
+            cases.append((f"$[{body}]", arr))
+            cases.append((f"$['x',{body}].k", {"x": 1}))
+            cases.append((f"$..[{body}]", [arr, {"k": arr}]))
+            cases.append((f"$.k[{body}, 0:2]", {"k": arr}))
     for v in scalars:
         for q in ("$[0]", "$[-1]", "$[:]", "$[*]", "$.*", "$..*", "$..[0]", "$['a']", "$.a", "$[0, 'a']"):
             cases.append((q, v))
@@ -249,6 +263,33 @@ def explore_c02(rng, tier, res, deep=False):
         cases.append((q, doc))
     sweep(res, PROBE_ENV, cases, "C02", expect_valid=True)
     reuse_after_edit(rng, res, PROBE_ENV, cases[:: max(1, len(cases) // (300 if tier == "quick" and not deep else 3000))], "C02")
+    same_query_twice(rng, tier, res)
+
+
+def same_query_twice(rng, tier, res):
+    """One filter that uses the SAME embedded query (or the same literal, or the same call) in two places joined by a
+    logical operator: an existence test next to a comparison of it, the two in either order, `a && a`, `a || !a`,
+    `!(!a)` — each operand is evaluated for what it is (a comparison with Nothing is not an existence test)."""
+    doc = [{"a": 2}, {"b": 3}, {"a": 1}, {"a": None}, {"a": False}, 5, None, "a", [], {}, {"a": [1]}, {"a": 0, "b": 0}, [1, 2], {"a": {"a": 1}}]
+    cases = []
+    queries = ["@.a", "@['a']", "@[0]", "$[0].a", "@.a.a", "@.b"]
+    lits = ["1", "null", "false", "0", "'a'", "2"]
+    for q in queries:
+        for op in OPS:
+            for lit in lits:
+                for l, r in ((q, f"{q} {op} {lit}"), (f"{q} {op} {lit}", q), (q, f"{lit} {op} {q}"), (f"!{q}", f"{q} {op} {lit}"), (q, f"!({q} {op} {lit})")):
+                    for conj in ("&&", "||"):
+                        cases.append((f"$[?{l} {conj} {r}]", doc))
+        for other in queries:
+            cases.append((f"$[?{q} && {other}]", doc))
+            cases.append((f"$[?{q} || !{other}]", doc))
+            cases.append((f"$[?{q} == {other} && {q}]", doc))
+            cases.append((f"$[?count({q}) == 1 && {other} != 1]", doc))
+        cases += [(f"$[?!(!{q})]", doc), (f"$[?!(!(!{q}))]", doc), (f"$[?({q}) && (({q}))]", doc), (f"$[?{q} && {q} && !{q}]", doc)]
+    if tier != "thorough":
+        keep = cases[::3] + [c for c in cases if "!=" in c[0]][::2]
+        cases = keep
+    sweep(res, PROBE_ENV, cases, "C02", check_ast_iter=False, expect_valid=True)
 
 
 def reuse_after_edit(rng, res, envdesc, cases, prop):
@@ -470,6 +511,15 @@ def explore_c06(rng, tier, res, deep=False):
         cases.append((f"$[?@.a {op} @.b]", [{"a": a, "b": b}]))
         if rng.random() < 0.3:
             cases.append((f"$[?@.b {op} @.a]", [{"a": a, "b": b}]))
+    # every operator with a literal null / true / false (and each other kind) on either side against the SAME value and
+    # against others, produced every way: <= and >= hold between equal values of ANY kind, < and > only within numbers/strings
+    lit_vals = [("null", None), ("true", True), ("false", False), ("0", 0), ("1", 1), ("''", ""), ("'a'", "a"), ("1.0", 1.0), ("-0.0", -0.0)]
+    for lit, val in lit_vals:
+        ldoc = {"rows": [{"v": gen._copy(val)}, {"v": None}, {"v": True}, {"v": False}, {"v": 0}, {"v": 1}, {"v": ""}, {"v": "a"}, {}, {"v": []}, {"v": [None]}], "x": gen._copy(val)}
+        for op in OPS:
+            for other in ("@.v", "$.x", "value(@.v)", "vf(@.v)", lit, "@.missing"):
+                cases.append((f"$.rows[?{other} {op} {lit}]", ldoc))
+                cases.append((f"$.rows[?{lit} {op} {other}]", ldoc))
     # several comparisons in ONE query whose literals Python's == (and hash) cannot tell apart although they are different
     # JSON values (true / 1 / 1.0, false / 0 / 0.0 / -0.0), or that spell the same value differently: each comparison
     # is against its own literal
@@ -652,9 +702,17 @@ def explore_c10(rng, tier, res, deep=False):
             for lit in (lits if tier == "thorough" else rng.sample(lits, 2)):
                 for d in docs:
                     cases.append((f"$[?{e} {op} {lit}]", d))
+    # Python-equal but JSON-distinct (or simply repeated) arguments in ONE call: each parameter receives its own argument
+    for a, b in [("1", "true"), ("true", "1"), ("false", "0"), ("0", "false"), ("1", "1.0"), ("1", "1"), ("@.a", "@.a"), ("0", "-0.0"), ("'1'", "1"), ("null", "false"), ("@", "@"), ("$[0]", "$[0]")]:
+        for d in docs:
+            cases.append((f"$[?vvl({a}, {b})]", d))
+            cases.append((f"$[?vvl({b}, {a}) || vvl({a}, {a})]", d))
+            cases.append((f"$[?lnv(vvl({a}, {b}), @.*) == 7]", d))
     tests = ["lf(@)", "lf(@.a)", "lf(@.*)", "lf(@==1)", "lf(!@.a)", "lf((@.a || @[0]))", "lf(lf(@))", "lf(nf(@.*))",
              "nf(@)", "nf(@.*)", "nf(nf(@..*))", "vvl(@, 1)", "vvl(@.a, $[0])", "zl()", "lnv(@.a, @.*) == 7",
-             "lnv(@ == 1, @) == 7", "lnv(lf(@), nf(@)) == 7", "!lf(@)", "!nf(@.a)", "lf(@) && nf(@.*)"]
+             "lnv(@ == 1, @) == 7", "lnv(lf(@), nf(@)) == 7", "!lf(@)", "!nf(@.a)", "lf(@) && nf(@.*)",
+             "vvl(1, true)", "vvl(true, 1)", "vvl(false, 0)", "vvl(1, 1.0)", "vvl(0, -0.0)", "vvl(1, 1)", "vvl(vf(0), vf(false))", "vvl(null, false)",
+             "lnv(vvl(0, 1), @.*) == 7 || lnv(vvl(0, true), @.*) == 7", "vvl(@.a, @.a)", "vvl('1', 1)"]
     for t in tests:
         for d in docs:
             cases.append((f"$[?{t}]", d))
@@ -675,6 +733,7 @@ def explore_c10(rng, tier, res, deep=False):
     sweep(res, PROBE_ENV, cases, "C10", expect_valid=True)
     cross_env_stage(rng, res, cases[:: max(1, len(cases) // (400 if tier != "thorough" else 4000))])
     callargs_check(rng, tier, res, docs, exprs + tests)
+    literal_args_check(res)
 
 
 def cross_env_stage(rng, res, cases):
@@ -725,6 +784,42 @@ def cross_env_stage(rng, res, cases):
                                    "history": "three environments alive with different signatures under the same names",
                                    "what": "a call ill-typed for this environment's registry was accepted"})
     res.count("cross-environment-cases", len(lines))
+
+
+def literal_args_check(res):
+    """"a ValueType parameter receives the literal": a recording two-parameter function called with every ordered pair of
+    literals — Python-equal ones above all (1 / true / 1.0, 0 / false / -0.0, '1' / 1) — must receive exactly the JSON
+    values written, each in its own position (kind included), also in nested calls."""
+    import jsonpath_rfc9535 as jp
+
+    log = []
+    desc = dict(PROBE_ENV)
+    desc["fns"] = [(n, a, r, "const") for n, a, r, _b in gen.PROBE_FNS]
+    env = real.make_env(desc, log=log)
+    lits = [("1", 1), ("true", True), ("1.0", 1.0), ("0", 0), ("false", False), ("-0.0", -0.0), ("null", None), ("'1'", "1"), ("''", ""), ("2", 2), ("'a'", "a"), ("0.0", 0.0)]
+
+    def same(x, v):
+        if type(x) is not type(v):
+            return False
+        if isinstance(v, float):
+            import math
+            return x == v and math.copysign(1, x) == math.copysign(1, v)
+        return x == v
+
+    for (ta, va), (tb, vb) in itertools.product(lits, repeat=2):
+        for q, want in ((f"$[?vvl({ta}, {tb})]", [va, vb]), (f"$[?vvl({tb}, {ta}) && vvl({ta}, {tb})]", [va, vb]), (f"$[?lnv(vvl({ta}, {tb}), @.*) == 7]", [va, vb])):
+            res.evaluations += 1
+            del log[:]
+            try:
+                env.find(q, [0])
+            except jp.JSONPathError as exc:
+                res.violations.append({"property": "C10", "query": q, "document": [0], "observed": type(exc).__name__, "expected": "evaluates", "what": "a well-typed call with literal arguments raised"})
+                continue
+            got = [a for n, a in log if n == "vvl"]
+            if not got or not (len(got[-1]) == 2 and same(got[-1][0], want[0]) and same(got[-1][1], want[1])):
+                res.violations.append({"property": "C10", "query": q, "document": [0], "observed": repr(got[-1] if got else None), "expected": repr(want),
+                                       "what": "a ValueType parameter did not receive the literal written in its position"})
+    res.count("literal-argument-pairs", len(lits) ** 2)
 
 
 def callargs_check(rng, tier, res, docs, exprs):
@@ -890,6 +985,79 @@ def explore_c18(rng, tier, res, deep=False):
                      "expected": want, "what": f"limit {lim}, container nesting {dd}"}
                 )
         res.count(f"limit-{lim}", len(cases))
+    deepen_in_place(rng, tier, res)
     import checks_nd
 
     checks_nd.explore_c18_nd(rng, tier, res, deep)
+
+
+def deepen_in_place(rng, tier, res):
+    """The bound applies to the data as it is when the query is applied: one compiled query (descendant segments at the
+    top, inside filters, inside function arguments, from `@` and from `$`), applied to a value within the limit, then
+    to the SAME object deepened / made self-referential in place (must raise JSONPathRecursionError), then to the same
+    object made shallow again with more matches (must equal a fresh evaluation); both modes."""
+    import copy
+
+    for nd in (False, True):
+        for lim in (3, 5):
+            desc = dict(BASE_ENV, maxDepth=lim, nd=nd)
+            env = real.make_env(desc)
+            for q in ("$..a", "$.items[?$..a]", "$.items[?count($..a) > 0]", "$.items[?@..a]", "$.items[?count(@..*) >= 0]", "$..[?$..a]", "$.items[?value($..zz) == 1 || $..a]"):
+                for kind in ("deeper", "self-loop", "cycle"):
+                    res.evaluations += 1
+                    c = env.compile(q)
+                    doc = {"items": [{"a": 1}, {"b": 2}], "a": 0}
+                    try:
+                        first = sorted(wire.enc_node(n.location, n.value) for n in c.find(doc))
+                    except real.jp.JSONPathError as exc:
+                        first = "err " + type(exc).__name__
+                    want1 = sorted(wire.enc_node(n.location, n.value) for n in real.make_env(desc).find(q, copy.deepcopy(doc)))
+                    if first != want1:
+                        res.violations.append({"property": "C18", "query": q, "document": doc, "env": desc, "observed": str(first)[:200], "expected": str(want1)[:200],
+                                               "what": "data within the limit: result differs from a fresh evaluation"})
+                        continue
+                    if kind == "deeper":
+                        deep = 0
+                        for _ in range(lim + 2):
+                            deep = {"a": deep}
+                        doc["items"][1]["b"] = deep
+                        shown = "items[1].b nested %d deep" % (lim + 2)
+                    elif kind == "self-loop":
+                        doc["items"][1]["b"] = doc["items"][1]
+                        shown = "items[1].b = items[1]"
+                    else:
+                        loop = [{"a": None}]
+                        loop[0]["a"] = loop
+                        doc["items"].append(loop)
+                        shown = "items[2] = L where L = [{'a': L}]"
+                    t0 = __import__("time").time()
+                    try:
+                        c.find(doc)
+                        got = "completed"
+                    except real.jp.JSONPathRecursionError:
+                        got = "rec"
+                    except RecursionError:
+                        got = "PY:RecursionError"
+                    except Exception as exc:  # noqa: BLE001
+                        got = "PY:" + type(exc).__name__
+                    if got != "rec":
+                        res.violations.append({"property": "C18", "query": q, "document": "{'items': [{'a': 1}, {'b': 2}], 'a': 0} then, in place: " + shown, "env": desc,
+                                               "observed": got, "expected": "JSONPathRecursionError",
+                                               "history": "compile once; apply to the value (within the limit); edit the same object in place as shown; apply again",
+                                               "what": "data deeper than the limit (or self-referential) did not raise JSONPathRecursionError when a compiled query was applied again"})
+                        continue
+                    # shallow again, with more matches
+                    doc["items"] = [{"a": 1}, {"a": 2}, {"c": {"a": 3}}]
+                    try:
+                        again = sorted(wire.enc_node(n.location, n.value) for n in c.find(doc))
+                    except real.jp.JSONPathError as exc:
+                        again = "err " + type(exc).__name__
+                    try:
+                        want2 = sorted(wire.enc_node(n.location, n.value) for n in real.make_env(desc).find(q, copy.deepcopy(doc)))
+                    except real.jp.JSONPathError as exc:
+                        want2 = "err " + type(exc).__name__
+                    if again != want2:
+                        res.violations.append({"property": "C18", "query": q, "document": doc, "env": desc, "observed": str(again)[:200], "expected": str(want2)[:200],
+                                               "history": "compile once; apply; deepen in place (raised); make shallow again in place; apply again",
+                                               "what": "after an application that raised, the compiled query does not give the full result on data within the limit"})
+    res.count("deepen-in-place", 2 * 2 * 7 * 3)
